@@ -64,13 +64,15 @@ def step (X : List Word) (s : State) (i : Nat) : State :=
   | 2 => (A, B, op X i C D A B, D)
   | _ => (A, op X i B C D A, C, D)
 
-def parse (block : List Byte) : List Word := (groups 4 block).map fun g => BitVec.ofNat 32 (leVal g)
+def parse (block : List Byte) : List Word := wordsLE 32 block
 
-def compress (s : State) (block : List Byte) : State :=
-  let X := parse block
+/-- §3.4 for one block given as its sixteen words X -/
+def compressWords (s : State) (X : List Word) : State :=
   let (A, B, C, D) := (List.range 64).foldl (step X) s
   let (AA, BB, CC, DD) := s
   (A + AA, B + BB, C + CC, D + DD)
+
+def compress (s : State) (block : List Byte) : State := compressWords s (parse block)
 
 def out (s : State) : List Byte :=
   let (A, B, C, D) := s
